@@ -764,3 +764,102 @@ class FnAnalysis:
             self.read(ps, a)
             self.write(ps, "whole", e)
         return {TMP}
+
+
+# ------------------------------------------------------------------ must-write maps (A4-lite)
+
+def _leaf_effects(an, s):
+    saved = an.s
+    an.s = Summary()
+    an.stmt(s)
+    out = an.s
+    an.s = saved
+    saved.effects |= out.effects
+    for k, v in out.locs.items():
+        saved.locs.setdefault(k, v)
+    saved.opaque |= out.opaque
+    saved.unknown |= out.unknown
+    return out
+
+
+def obj_key(path):
+    """root + fields up to the first index"""
+    out = []
+    for e in path:
+        if e[0] == "[]":
+            break
+        out.append(e)
+    return tuple(out)
+
+
+def _merge(a, b):
+    return {"paths": a["paths"] | b["paths"], "how": a["how"] | b["how"],
+            "reads": a["reads"] | b["reads"], "loc": a["loc"] or b["loc"],
+            "branches": a.get("branches", 1)}
+
+
+def must_write_map(an, s, keyfn=obj_key):
+    """{key: {"paths", "how", "reads" (paths read by the same leaf statements), "loc"}} of the
+    writes that happen on EVERY path through statement s (a loop may run zero times).  Keys are
+    `keyfn(path)` (default: the object, i.e. root + fields up to the first index); "paths" keeps
+    the precise written paths of all branches."""
+    if s is None:
+        return {}
+    k = s.get("k")
+    if k == "compound":
+        out = {}
+        for c in s["b"]:
+            m = must_write_map(an, c, keyfn)
+            for p, v in m.items():
+                out[p] = _merge(out[p], v) if p in out else v
+            if c.get("k") in ("return", "break", "continue") or \
+                    (c.get("k") == "expr" and strip(c["e"]).get("k") == "throw"):
+                break
+        return out
+    if k == "if":
+        cv = strip(s["c"]).get("cv")
+        if s.get("init") is not None:
+            _leaf_effects(an, s["init"])
+        _leaf_effects(an, {"k": "expr", "e": s["c"], "l": s.get("l")})
+        a = must_write_map(an, s.get("then"), keyfn)
+        b = must_write_map(an, s.get("else"), keyfn) if s.get("else") is not None else {}
+        if cv is True:
+            return a
+        if cv is False:
+            return b
+        if _always_exits(s.get("then")):
+            return b
+        if s.get("else") is not None and _always_exits(s.get("else")):
+            return a
+        return {p: _merge(a[p], b[p]) for p in a if p in b}
+    if k in ("for", "while", "do", "rangefor", "switch", "try"):
+        _leaf_effects(an, s)
+        if k == "do":
+            return must_write_map(an, s.get("body"), keyfn)
+        if k == "try":
+            return must_write_map(an, s.get("body"), keyfn)
+        return {}
+    eff = _leaf_effects(an, s)
+    reads = eff.reads()
+    out = {}
+    for (kind, p, how) in eff.effects:
+        if kind == "w":
+            key = keyfn(p)
+            v = {"paths": {p}, "how": {how}, "reads": set(reads), "loc": eff.locs.get((kind, p, how))}
+            out[key] = _merge(out[key], v) if key in out else v
+    return out
+
+
+def _always_exits(s):
+    if s is None:
+        return False
+    k = s.get("k")
+    if k in ("return",):
+        return True
+    if k == "expr":
+        return strip(s["e"]).get("k") == "throw"
+    if k == "compound":
+        return any(_always_exits(c) for c in s["b"])
+    if k == "if":
+        return s.get("else") is not None and _always_exits(s.get("then")) and _always_exits(s.get("else"))
+    return False
